@@ -1,12 +1,15 @@
 //! mtmc – bounded exhaustive exploration of momtrop against the exact reference model.
 //! usage: mtmc <Cxx> --tier quick|thorough [--replay <file>]
+mod c01;
 mod c06;
 mod c14;
 mod common;
+mod history;
 mod kernel;
 mod obs;
 mod sampler;
 mod scalar;
+mod sched;
 mod scope;
 mod sprops;
 mod table;
@@ -45,6 +48,18 @@ fn main() {
     silence_stdout();
     install_silent_panic_hook();
     set_time_cap(tier.pick(240.0, 3000.0));
+    if args.len() >= 3 && args[2] == "--child-digest" {
+        out_line(&format!("{}", history::digest_of_reference()));
+        std::process::exit(0);
+    }
+    if args.len() >= 3 && args[2] == "--history-worker" {
+        let tier_cap = 3000.0;
+        set_time_cap(tier_cap);
+        std::process::exit(history::history_worker_main(&args[3..]));
+    }
+    if args.len() >= 3 && args[2] == "--sched-worker" {
+        std::process::exit(sched::worker_main(&args[3..]));
+    }
     let code = std::panic::catch_unwind(|| {
         if let Some(path) = &replay {
             let txt = std::fs::read_to_string(path).expect("replay file");
@@ -53,8 +68,12 @@ fn main() {
             match case["engine"].as_str().unwrap_or("") {
                 "table" => table::replay(&ctx, case),
                 "sampler" if prop == "C14" || prop == "C19" => c14::replay_point(&ctx, case),
+                "sampler" if prop == "C01" => c01::replay(&ctx, case),
                 "sampler" => sprops::replay_point(&ctx, case),
                 "c06" => c06::replay(&ctx, case),
+                "history" => history::replay_history(&ctx, case),
+                "sched" => sched::replay(&ctx, case),
+                "c18" => history::replay_c18(case),
                 "kernel" => match case["kind"].as_str().unwrap_or("") {
                     "gamma" | "gamma-pair" => kernel::replay_gamma(case),
                     "matrix" => kernel::replay_matrix(&ctx, case),
@@ -70,8 +89,11 @@ fn main() {
             match prop.as_str() {
                 "C03" | "C04" | "C05" => table::run(&ctx),
                 "C06" => c06::run(&ctx),
+                "C01" => c01::run(&ctx),
                 "C02" => sprops::run_c02(&ctx),
                 "C14" | "C19" => c14::run(&ctx),
+                "C17" => history::run_c17(&ctx),
+                "C18" => history::run_c18(&ctx),
                 "C12" => kernel::run_c12(&ctx),
                 "C15" => kernel::run_c15(&ctx),
                 "C16" => kernel::run_c16(&ctx),
